@@ -6,6 +6,8 @@
                                  same b, with the oracle's *current* self.total -> finite, >= 0, sums to the total
   oracle-uses-given-potentials   the beliefs are built from the potentials argument of the call (not a stale attribute)
   returns-clique-marginals       loopy_belief_propagation returns what clique_marginals computed from its own messages
+  identity-compare               attribute / clique names are excluded from a complement by identity (`is not`) only when both names
+                                 range over the same container; names from different containers must be compared by equality
 Not decided: exactness on acyclic structures (a numerical fixed-point statement).
 """
 import ast
@@ -61,5 +63,38 @@ def run(ctx):
             and U(v.args[2]) == pot
         ctx.ob('returns-clique-marginals', lbp, r, ok,
                'must return self.clique_marginals(<messages>, <messages>, %s); returns `%s`' % (pot, U(v) if v is not None else None))
+    check_identity_compares(ctx)
     ctx.floor('returned-table constructions', n_ret, 2)
     ctx.floor('exp sites', sum(1 for o in ctx.obligations if o.rule == 'exp-normalised'), 2)
+
+
+def binding_iter(name_node):
+    """the iterable expression of the loop / comprehension that binds this name (innermost enclosing), or None"""
+    n = name_node
+    par = getattr(n, '_parent', None)
+    while par is not None:
+        if isinstance(par, (ast.ListComp, ast.SetComp, ast.GeneratorExp, ast.DictComp)):
+            for g in par.generators:
+                if name_node.id in [x.id for x in ast.walk(g.target) if isinstance(x, ast.Name)]:
+                    return U(g.iter)
+        if isinstance(par, ast.For) and name_node.id in [x.id for x in ast.walk(par.target) if isinstance(x, ast.Name)]:
+            return U(par.iter)
+        par = getattr(par, '_parent', None)
+    return None
+
+
+def check_identity_compares(ctx):
+    n = 0
+    for rel, cname in ((FG, 'FactorGraph'), (RG, 'RegionGraph')):
+        for name, fi in ctx.repo.methods(rel, cname).items():
+            for c in ast.walk(fi.node):
+                if isinstance(c, ast.Compare) and len(c.ops) == 1 and isinstance(c.ops[0], (ast.Is, ast.IsNot)) and \
+                        isinstance(c.left, ast.Name) and isinstance(c.comparators[0], ast.Name):
+                    a, b = binding_iter(c.left), binding_iter(c.comparators[0])
+                    if a is None and b is None:
+                        continue
+                    n += 1
+                    ctx.ob('identity-compare', fi, c, a == b,
+                           '`%s`: `%s` ranges over `%s`, `%s` over `%s`; equal names held by different containers need not be the same '
+                           'object, identity is only sound within one container' % (U(c), U(c.left), a, U(c.comparators[0]), b))
+    ctx.count('identity comparisons of names', n)
